@@ -128,6 +128,57 @@ def crop (g : GeoBox) (roi : Roi) : GeoBox :=
   ⟨ry.stop - ry.start, rx.stop - rx.start,
    g.A * Aff.translation (rx.start : Rat) (ry.start : Rat), g.crs⟩
 
+/-! ### cropping by a region: `compute_crop` with a Geometry / BoundingBox / GeoBox (geobox.py:306-319)
+
+The region is given by its vertices (`BoundingBox` → its four corners, `GeoBox` → its `extent`).
+A region with a CRS is projected into the pixel plane (`wld2pix` on every vertex; only the
+same-CRS case is modelled, reprojection belongs to C07); a region without CRS is taken to be in
+pixel coordinates already.  Then: bounding box, rounded outwards, intersected with the image,
+at least one pixel wide, and the ordinary slice crop. -/
+
+def cropRegionPix (g : GeoBox) (pts : List Pt) : Res GeoBox :=
+  match pts with
+  | [] => .error .valueError
+  | p :: ps =>
+    let xs := (p :: ps).map (·.1)
+    let ys := (p :: ps).map (·.2)
+    -- `roi.boundingbox.round() & BoundingBox(0, 0, width, height)`
+    let L := max (C17.minL 0 xs).floor 0
+    let B := max (C17.minL 0 ys).floor 0
+    let R := min (C17.maxL 0 xs).ceil g.nx
+    let T := min (C17.maxL 0 ys).ceil g.ny
+    let nx := max 1 (R - L)
+    let ny := max 1 (T - B)
+    .ok (crop g (.two (.slc (some B) (some (B + ny))) (.slc (some L) (some (L + nx)))))
+
+def cropRegion (g : GeoBox) (inPixels : Bool) (pts : List Pt) : Res GeoBox :=
+  if inPixels then cropRegionPix g pts
+  else do
+    let Ai ← g.A.inv?
+    cropRegionPix g (pts.map Ai.apply)
+
+/-- `gbox[other]` for a geobox `other` with the same CRS tag; a CRS-less `other` has a CRS-less
+extent, which the code takes for pixel coordinates. -/
+def cropGeoBox (g w : GeoBox) : Res GeoBox := cropRegion g (w.crs == 0) (extent w)
+
+/-- index / region kinds accepted by `__getitem__` (probed by the harness on every run: the live
+outcome of `gbox[<kind>]` must be the one listed here). -/
+def indexKindTable : List (String × String) := [
+  ("int", "ok"), ("bool", "ok"), ("slice", "ok"), ("slice-step1", "ok"),
+  ("slice-step2", "ERR:NotImplemented"), ("tuple2-slices", "ok"), ("tuple2-ints", "ok"),
+  ("tuple2-mixed", "ok"), ("list2", "ok"), ("tuple1", "ERR:ValueError"), ("tuple3", "ERR:ValueError"),
+  ("ndarray", "ERR:ValueError"), ("np.int64", "ERR:TypeError"), ("float", "ERR:TypeError"),
+  ("ellipsis", "ERR:TypeError"), ("none", "ERR:TypeError"), ("str", "ERR:AttributeError"),
+  ("Geometry-same-crs", "ok"), ("Geometry-no-crs", "ok"), ("Geometry-other-crs", "ok"),
+  ("Geometry-point", "ok"), ("Geometry-line", "ok"), ("Geometry-multipolygon", "ok"),
+  ("BoundingBox-same-crs", "ok"), ("BoundingBox-no-crs", "ok"), ("BoundingBox-other-crs", "ok"),
+  ("GeoBox-window", "ok"), ("GeoBox-other-grid", "ok"), ("GeoBox-other-crs", "ok"), ("GCPGeoBox", "ok")]
+
+def indexKind (name : String) : String :=
+  match indexKindTable.find? (fun e => e.1 == name) with
+  | some e => e.2
+  | none => "UNKNOWN-KIND"
+
 /-! ### pixel-side and world-side composition (geobox.py:877-906) -/
 
 /-- `gbox * T` -/
